@@ -1485,6 +1485,11 @@ class Interp:
                 if v.is_const():
                     return Poly.const(int(v.const_value()))
             raise Undecided(f"{name}() of a symbolic value")
+        if name == "slice" and isinstance(f, ast.Name) and 1 <= len(args) <= 3:
+            vs = [ev(a) for a in args]
+            if len(vs) == 1:
+                return Obj("slice", {"start": None, "stop": vs[0], "step": None})
+            return Obj("slice", {"start": vs[0], "stop": vs[1], "step": vs[2] if len(vs) > 2 else None})
         if name in ("min", "max") and isinstance(f, ast.Name) and args and "key" not in kw:
             vals = [ev(a) for a in args]
             if len(vals) == 1:
